@@ -739,6 +739,32 @@ def propagate_child_aliases(fn):
     fn.body = [sub.visit(st) for st in fn.body]
     return len(aliases)
 
+class _FlattenStar(ast.NodeTransformer):
+    """f(*(a, b))  ->  f(a, b);   (a,) + (b,)  ->  (a, b)      (what parameter binding of a `*operands` helper leaves behind)"""
+    count = 0
+
+    def visit_BinOp(self, n):
+        self.generic_visit(n)
+        if isinstance(n.op, ast.Add) and isinstance(n.left, ast.Tuple) and isinstance(n.right, ast.Tuple) \
+                and not any(isinstance(e, ast.Starred) for e in n.left.elts + n.right.elts):
+            _FlattenStar.count += 1
+            return ast.copy_location(ast.Tuple(elts=n.left.elts + n.right.elts, ctx=ast.Load()), n)
+        return n
+
+    def visit_Call(self, n):
+        self.generic_visit(n)
+        if any(isinstance(a, ast.Starred) and isinstance(a.value, ast.Tuple) for a in n.args):
+            args = []
+            for a in n.args:
+                if isinstance(a, ast.Starred) and isinstance(a.value, ast.Tuple) and not any(isinstance(e, ast.Starred) for e in a.value.elts):
+                    args.extend(a.value.elts)
+                    _FlattenStar.count += 1
+                else:
+                    args.append(a)
+            n.args = args
+        return n
+
+
 # ====================================================================================================== driver
 def lower_package(trees):
     """trees: {module name: ast.Module}; rewritten in place.  -> statistics"""
@@ -815,6 +841,9 @@ def lower_package(trees):
                     if isinstance(st, ast.ClassDef):
                         st.body = [s2 for s2 in st.body if not (isinstance(s2, ast.FunctionDef) and s2.name in dead)] or [ast.Pass()]
         stats['removed'] = sorted(dead)
+    if stats['inlined']:
+        for tree in trees.values():
+            _FlattenStar().visit(tree)
     stats['tuple_assign'] = 0
     stats['child_alias'] = 0
     for tree in trees.values():
